@@ -56,6 +56,11 @@ class ArrayConstraintBuilder(ConstraintOverrideVisitor):
         
         return builder.constraints
     
+    def visit_constraint_block(self, c):
+        # A block that is switched off takes no part in the call
+        if c.enabled:
+            super().visit_constraint_block(c)
+
     def visit_constraint_foreach(self, f:ConstraintForeachModel):
         # Instead of just performing a straight copy, expand
         # the constraints
